@@ -49,7 +49,8 @@ OPS = [
     ('abs', 'A', 'abs(*a)', 'V', 'V', 'fi'), ('sign', 'A', 'sign(*a)', 'V', 'V', 'f'), ('floor', 'A', 'floor(*a)', 'V', 'V', 'f'), ('ceil', 'A', 'ceil(*a)', 'V', 'V', 'f'),
     ('round', 'A', 'round(*a)', 'V', 'V', 'f'), ('roundEven', 'A', 'roundEven(*a)', 'V', 'V', 'f'), ('trunc', 'A', 'trunc(*a)', 'V', 'V', 'f'),
     ('fract', 'A', 'fract(*a)', 'V', 'V', 'f'), ('mod', 'B', 'mod(*a, *b)', 'VV', 'V', 'f'),
-    ('min', 'A', 'min(*a, *b)', 'VV', 'V', 'fi'), ('max', 'A', 'max(*a, *b)', 'VV', 'V', 'fi'), ('clamp', 'A', 'clamp(*a, *b, *c)', 'VVV', 'V', 'fi'),
+    ('min', 'A', 'min(*a, *b)', 'VV', 'V', 'fiu'), ('max', 'A', 'max(*a, *b)', 'VV', 'V', 'fiu'), ('clamp', 'A', 'clamp(*a, *b, *c)', 'VVV', 'V', 'fiu'),
+    ('clamp_s', 'A', 'clamp(*a, *b, *c)', 'VSS', 'V', 'fiu'), ('min_s', 'A', 'min(*a, *b)', 'VS', 'V', 'fiu'), ('max_s', 'A', 'max(*a, *b)', 'VS', 'V', 'fiu'),
     ('step', 'A', 'step(*a, *b)', 'VV', 'V', 'f'), ('sqrt', 'A', 'sqrt(*a)', 'V', 'V', 'f'), ('inversesqrt', 'B', 'inversesqrt(*a)', 'V', 'V', 'f'),
     ('mix', 'B', 'mix(*a, *b, *c)', 'VVV', 'V', 'f'), ('smoothstep', 'B', 'smoothstep(*a, *b, *c)', 'VVV', 'V', 'f'), ('fma', 'B', 'fma(*a, *b, *c)', 'VVV', 'V', 'f'),
     ('dot', 'B', 'dot(*a, *b)', 'VV', 'S', 'f'), ('length', 'B', 'length(*a)', 'V', 'S', 'f'), ('distance', 'B', 'distance(*a, *b)', 'VV', 'S', 'f'),
@@ -185,6 +186,11 @@ def compare_builds(t_p, t_s, cls, rty, pc):
             return R.PROVED, 'same polynomial mod 2^%d' % w
         if L.lanes_only(pp - ps):
             return R.REFUTED, 'different integer polynomial: pure %s ; intrinsic %s' % (P.show_poly(pp), P.show_poly(ps))
+        r3 = O.int_equivalent(t_p, t_s)
+        if r3 is True:
+            return R.PROVED, 'same selection for every unsigned ordering of the operands and every sign-boundary position'
+        if r3:
+            return R.REFUTED, 'integer selection differs when %s: pure picks %s, intrinsic picks %s ; intrinsic: %s' % (r3[1], r3[2], r3[3], tm.show(t_s, 4))
         d = tm.diff(t_p, t_s)
         return R.UNDECIDED, 'terms differ at %s: pure %s ; intrinsic %s' % (d[0], tm.show(d[1], 4), tm.show(d[2], 4))
     st, detail = S.compare(t_s, t_p, pc=pc, nan=False)
